@@ -9,11 +9,12 @@ from props.rot_common import *
 
 PID = 'C14'
 MANIFEST = dict(
-    text='Machine-checked invariant proof (Coq, all theorems closed under the global context) over an executable model of RotatingSink (abstract directory, created-files deque, rename chain, back-of-deque deletion, directory scan on restart, three naming schemes, libc as an oracle). For every op sequence from a constructor on a directory without files named stem.*.ext (unrelated files present): the rename chain never overwrites a file; the retained files read oldest to newest are the written sequence minus a prefix formed by the files deleted at the back of the deque, nothing missing with overwrite off (rot_order, rot_whole); every file is within the limit or holds the single statement written into an empty file, the live file being exempt once rotation has stopped (rot_limit); at most max_backup_files rotated files, disk = deque, no rename/remove after the stop (rot_count, rot_stops); names carry the age (Index: all runs; Date/DateAndTime: one run with non-decreasing timestamps and monotone strftime); unrelated files untouched. Restarts: Index scheme in mode a (scan rebuilds exactly the deque, rot_append_restart) and mode w with remove_old_files, any number of them; Date scheme: only what the scan recovers (partial); DateAndTime restarts not proved. Premise bytes written = log_statement.size() is false for RotatingJsonFileSink (rot_json_refuted, D10). Tied to the real RotatingFileSink/RotatingJsonFileSink by differential runs in a scratch directory (0 disagreements) plus a direct property monitor; open findings D10, C14-datetime-restart, C14-date-restart-backwards; C14-decoy-index (a name component such as 5x parsed as index 5) was repaired (fix commit 50e20c2) and the model now requires a pure digit string.',
+    text='Machine-checked invariant proof (Coq, all theorems closed under the global context) over an executable model of RotatingSink (abstract directory, created-files deque, rename chain, back-of-deque deletion, directory scan on restart, three naming schemes, libc as an oracle). For every op sequence from a constructor on a directory without files named stem.*.ext (unrelated files present): the rename chain never overwrites a file; the retained files read oldest to newest are the written sequence minus a prefix formed by the files deleted at the back of the deque, nothing missing with overwrite off (rot_order, rot_whole); every file is within the limit or holds the single statement written into an empty file, the live file being exempt once rotation has stopped (rot_limit); at most max_backup_files rotated files, disk = deque, no rename/remove after the stop (rot_count, rot_stops); names carry the age (Index: all runs; Date/DateAndTime: one run with non-decreasing timestamps and monotone strftime); unrelated files untouched. Restarts: Index scheme in mode a (scan rebuilds exactly the deque, rot_append_restart) and mode w with remove_old_files, any number of them; Date scheme: only what the scan recovers (partial); DateAndTime restarts not proved. The model carries a code-variant flag c_cntacct (true = the earlier code that handed log_statement.size() to the size check and to _file_size, finding D10; false = the repaired code that accounts the bytes the base sink writes, fixes/D10.diff); the variant that stands for the source tree is read from it on every run (T-src: tools/srcfacts.py rot_facts, TieC14.v by vm_compute, rot_code_variant). For the code variant there is no premise on the writes (rot_ops_code, rot_limit_code: every file within the limit unless a single statement alone exceeds it, RotatingJsonFileSink included, whatever log_statement.size() is); for the earlier variant the premise bytes written = log_statement.size() is needed and false for RotatingJsonFileSink (rot_json_refuted, kept as a statement about that variant). Tied to the real RotatingFileSink/RotatingJsonFileSink by differential runs in a scratch directory (0 disagreements; JSON sinks with empty/short/unrelated log_statement sizes, sizes at limit-1/limit/limit+1) plus a direct property monitor; open findings C14-datetime-restart, C14-date-restart-backwards; D10 repaired; C14-decoy-index (a name component such as 5x parsed as index 5) was repaired (fix commit 50e20c2) and the model now requires a pure digit string.',
     design='5 C14', technique='Coq invariant proof over an executable model + extracted-model/implementation differential correspondence in a scratch directory')
 TRUSTED = [
     'Coq 8.16.1 kernel (coqc, vm_compute for refutation / non-vacuity examples; no native_compute)',
     'axioms: none (every theorem Closed under the global context); libc (strftime of the open instant, mktime/timegm of the adjusted broken-down time) is a Section variable of the model and a premise where a theorem needs a property of it',
+    'T-src: tools/srcfacts.py rot_facts (clang 14 JSON AST skeletons of RotatingSink::write_log / before_stream_write / _size_rotation and StreamSink::write_log) decides the model flag c_cntacct; TieC14.v pins the skeletons by vm_compute; that the Gallina variant c_cntacct = false is faithful to those texts is by inspection (and sampled by the correspondence on every run)',
     'extraction: ExtrOcamlBasic only, OCaml 4.13.1 ocamlopt, extract/driver.ml; the runner looks the libc oracle up in a table carried by the case line, filled from the real libc by harness/rot.cpp',
     'correspondence harness harness/rot.cpp (statements are lines carrying their id, sizes by padding; observation = sorted directory listing after every op), g++ -fsanitize=address,undefined',
     'modelled rather than verified: RotatingSink.h is re-stated in Gallina (Rotate/RotModel.v); file names are dot-separated component lists; file-system failures (ENOSPC, failing rename/remove), readdir order with equal indices, std::sort instability beyond 16 entries, uint32 wrap of indices, stoul sign/whitespace prefixes, before_write notifiers are not modelled',
